@@ -33,8 +33,8 @@ Definition exB : index -> sval Z := fun i =>
   match i with [_; _; O] => SVal 5%Z | [_; _; S O] => SVal (-1)%Z | _ => SZero end.
 
 Definition ex_descs : list (sdesc Z) :=
-  [SBase (mkHead (S O) (S O) (S O)) (fun i => Ok (exA i)); SBase (mkHead (S O) (S O) (S O)) (fun i => Ok (exB i));
-   SProd (mkHead (S O) (S O) (S O)) HNone O (S O)].
+  [SBase (mkHead (S O) (S O) (S O) (cons O nil)) (fun i => Ok (exA i)); SBase (mkHead (S O) (S O) (S O) (cons O nil)) (fun i => Ok (exB i));
+   SProd (mkHead (S O) (S O) (S O) (cons O nil)) HNone O (S O)].
 
 Definition ex_spec (s : sid) (i : index) : Z :=
   match s with
